@@ -201,6 +201,7 @@ type rtRun struct {
 	capPre  bool     // the memory was created with capacity beyond its minimum (outcome histogram only)
 	done    bool
 	fns     map[string]api.Function // one api.Function per export, re-used sequentially (never re-entered)
+	cur     *callCtx                // the context of the scripted call in progress (family ctxdone)
 }
 
 func (r *rtRun) add(format string, a ...any) { r.tr = append(r.tr, fmt.Sprintf(format, a...)) }
@@ -408,6 +409,7 @@ func (r *rtRun) buildEnv() {
 		r.add(" host reentermain(%d) in %s < %d", x, seen(mod), uint32(res[0]))
 		st[0] = uint64(uint32(res[0]) + 1)
 	})
+	def("ctxdone", []api.ValueType{tI32}, []api.ValueType{tI32}, r.hostCtxDone) // last: keeps the indices of the others
 	// the listener factory (if any) is in r.ctx: host functions get listeners as well
 	if _, err := b.Instantiate(r.ctx); err != nil {
 		r.envErr = err.Error()
@@ -557,7 +559,12 @@ func (r *rtRun) instantiate(p *program) (mod api.Module, err error) {
 			r.add(" go-panic in instantiate")
 		}
 	}()
-	return r.rt.InstantiateModule(r.ctx, r.code, wazero.NewModuleConfig().WithName("main"))
+	ctx, fin := r.ctx, func() {}
+	if p.InstCtx != "" { // the start function runs under a context that is or becomes done (family ctxdone)
+		ctx, fin = r.enterCtx(p.InstCtx)
+	}
+	defer fin()
+	return r.rt.InstantiateModule(ctx, r.code, wazero.NewModuleConfig().WithName("main"))
 }
 
 func (r *rtRun) call(mod api.Module, i int, c call) {
@@ -576,12 +583,18 @@ func (r *rtRun) call(mod api.Module, i int, c call) {
 		r.add("call %d %s noexport", i, c.Fn)
 		return
 	}
-	res, err := fn.Call(r.ctx, c.Args...)
+	ctx, fin, sfx := r.ctx, func() {}, ""
+	if c.Ctx != "" {
+		ctx, fin = r.enterCtx(c.Ctx)
+		sfx = " ctx=" + c.Ctx
+	}
+	res, err := fn.Call(ctx, c.Args...)
+	fin()
 	if err != nil {
-		r.add("call %d %s%x -> %s", i, c.Fn, c.Args, errKind(err))
+		r.add("call %d %s%x%s -> %s", i, c.Fn, c.Args, sfx, errKind(err))
 		return
 	}
-	r.add("call %d %s%x -> %x", i, c.Fn, c.Args, res)
+	r.add("call %d %s%x%s -> %x", i, c.Fn, c.Args, sfx, res)
 }
 
 func (r *rtRun) final(who string, mod api.Module, globals []string) {
